@@ -150,11 +150,12 @@ func rulePoolNil(c *Ctx, rule string) {
 					}
 					zero := false
 					if k, ok := constIntVal(bo.Y); ok && k == 0 {
-						if cl := builtinCall(bo.X, "cap"); cl != nil && fromChunkField(cl.Call.Args[0]) {
+						// of the field, or of the very value that was just stored into it
+						if cl := builtinCall(bo.X, "cap"); cl != nil && (fromChunkField(cl.Call.Args[0]) || cl.Call.Args[0] == st.Val) {
 							zero = true
 						}
 					}
-					if isNilConst(bo.Y) && fromChunkField(bo.X) {
+					if isNilConst(bo.Y) && (fromChunkField(bo.X) || bo.X == st.Val) {
 						zero = true
 					}
 					if !zero {
